@@ -154,7 +154,7 @@ def contract_request(c, cases):
     return {"function": c.name, "params": c.params, "types": [list(t) for t in c.types],
             "requires": c.requires, "ensures": [[cl.name, cl.expr] for cl in c.ensures_c],
             "spec_src": getattr(c, "spec_src", {}), "consts": {**extract.module_constants(fn.module), **c.consts},
-            "raises": list(c.raises), "cases": cases}
+            "raises": list(c.raises), "cases": cases, "mode": c.mode}
 
 
 def replay_g1(ctx, ob):
@@ -413,3 +413,15 @@ def main(argv):
 
 if __name__ == "__main__":
     sys.exit(main(sys.argv[1:]))
+
+
+def run_lemmas(ctx, lemmas, prefix):
+    """Discharge stand-alone lemma obligations [(name, assumptions, goal, text)] with the G1 pipeline."""
+    from . import smt
+    from .vcgen import Obligation
+    obs = []
+    for name, assumptions, goal, text in lemmas:
+        o = Obligation(f"{prefix}:{name}", "lemma", assumptions, goal, 0, prefix, text)
+        obs.append(o)
+    for r in smt.discharge(obs, timeout_s=ctx.timeout_s):
+        ctx.obs.append(Ob(r.name, "G1", r.kind, r.verdict, r.backend, r.seconds, r.text, r.func, 0, r.model, r.reason, r.smt2))
